@@ -157,3 +157,15 @@ PROPS['C17'] = dict(
     clauses={'every platform x schema resolves to existing code': 'P (finite, exhaustive)',
              'smallest number of whole nodes covering cores/GPUs + backup': 'not yet built',
              'agent told the same figures': 'not yet built'})
+
+PROPS['C18'] = dict(
+    level='other',
+    claim='node list construction (_get_node_list: one entry per allocated node, indices = positions, configured cores/GPUs all free), uniform core count (_get_cores_per_node), blocked-core/GPU marking (fragment of _init_from_scratch: exactly the listed indices DOWN on every node), and _filter_nodes (never empty, never longer than requested, a sub-list of the allocated nodes, agent and service nodes set aside and pairwise disjoint) are verified for every node list; lemma C01.init: the resulting list satisfies the scheduler invariant',
+    note='node-file parsing (_parse_nodefile: file I/O), the per-batch-system init_from_scratch (Slurm, LSF, PBSPro ...), and the registry hand-over to other components are not under contract; the ssh probe in _filter_nodes is replaced by an arbitrary order-preserving sub-list (listed under dropped statements)',
+    assumptions=['A1', 'A2', 'A3', 'A4', 'A8', 'A11'],
+    trusted_base=['ru.sh_callout / Process (ssh probe): modelled as an arbitrary sub-list of the node list'],
+    explanation='contracts on the RM base class functions that build and reduce the node list',
+    clauses={'unique indices, configured cores / GPUs, blocked marked': 'P',
+             'agent / service nodes excluded; never empty; not longer than requested': 'P',
+             'node-file / scheduler-specific parsing': 'not yet built',
+             'same list seen by every component (registry)': 'A'})
